@@ -79,6 +79,8 @@ type Downstream struct {
 	eventDispatcher *eventDispatcher
 
 	closedNotified sync.Once // the closed event is delivered once, whichever close path gets there first
+
+	readMu sync.RWMutex // held (shared) while a read books a chunk it took from the queue; Close changes the state under it
 }
 
 // Stateは、Downstreamが保持している内部の状態を返却します。
@@ -115,7 +117,9 @@ func (d *Downstream) closeWithError(ctx context.Context, cause error) (err error
 	if d.isClosed() {
 		return nil
 	}
+	d.readMu.Lock()
 	beforeStatus := d.state.Swap(streamStatusDraining)
+	d.readMu.Unlock()
 	if beforeStatus == streamStatusDraining {
 		return errors.Errorf("already draining: %w", errors.ErrStreamClosed)
 	}
@@ -189,6 +193,13 @@ func (d *Downstream) ReadDataPoints(ctx context.Context) (*DownstreamChunk, erro
 	case <-ctx.Done():
 		return nil, ctx.Err()
 	case dps := <-d.dataPointsCh:
+		// a chunk is either handed to the application with its acknowledgement booked before Close's last flush, or
+		// not handed out at all: Close changes the state under the write lock
+		d.readMu.RLock()
+		defer d.readMu.RUnlock()
+		if d.state.Is(streamStatusDraining) {
+			return nil, errors.ErrStreamClosed
+		}
 		d.processUpstreamAlias(dps.UpstreamOrAlias)
 		d.processDataPoints(dps.StreamChunk.DataPointGroups)
 
